@@ -14,7 +14,8 @@ from . import common
 from . import integ_common as ic
 
 PROP = "C07"
-LEAN_MODULES = ["MiciVerif.Props.C07"]
+LEAN_MODULES = ["MiciVerif.Props.C07", "MiciVerif.Props.C07S"]
+GENERATED = ["system_methods"]
 LEAN_EXTRA = ["MiciVerif.Model.Integrators", "MiciVerif.Lemmas.IntegratorsExec", "MiciVerif.Proto"]
 
 
@@ -93,6 +94,227 @@ def h2_ode(sysw, z, t):
     return sol.y[:, -1]
 
 
+# derived metric objects whose parents have warm caches ----------------------------------------------------------
+DERIVED_BASES = ("dense_obj", "dense_obj", "dense_obj", "diag_obj", "chol", "eig", "scaled", "block")
+TOUCHES = ("eigval", "eigvec", "eigval", "sqrt", "log_abs_det", "factor", "inv", "array", "diagonal", "T", "lu_and_piv")
+SCALES = (0.25, 0.5, 2.0, 4.0)
+
+
+def random_recipe(rng, d, depth=0):
+    """{"base": metric spec, "ops": [["touch", [...]] | ["inv"] | ["scale", c] | ["div", c] | ["T"]], "block": recipe?}"""
+    base = ic.random_metric_spec(rng, d, kinds=DERIVED_BASES)
+    ops = []
+    for _ in range(int(rng.integers(1, 5))):
+        if rng.random() < 0.7:
+            k = int(rng.integers(1, 4))
+            ops.append(["touch", sorted({str(x) for x in rng.choice(TOUCHES, size=k)})])
+        r = rng.random()
+        if r < 0.5:
+            ops.append(["inv"])
+        elif r < 0.7:
+            ops.append(["scale", float(rng.choice(SCALES))])
+        elif r < 0.85:
+            ops.append(["div", float(rng.choice(SCALES))])
+        else:
+            ops.append(["T"])
+    rec = {"base": base, "ops": ops}
+    if depth == 0 and d >= 2 and rng.random() < 0.2:
+        k = int(rng.integers(1, d))
+        rec = {"blocks": [random_recipe(rng, k, 1), random_recipe(rng, d - k, 1)]}
+    return rec
+
+
+def describe_recipe(rec):
+    if "blocks" in rec:
+        return "blockdiag(" + ", ".join(describe_recipe(b) for b in rec["blocks"]) + ")"
+    out = rec["base"]["kind"]
+    for op in rec["ops"]:
+        if op[0] == "touch":
+            out += "{" + ",".join(op[1]) + "}"
+        elif op[0] == "inv":
+            out += ".inv"
+        elif op[0] == "T":
+            out += ".T"
+        else:
+            out = f"({out} {'*' if op[0] == 'scale' else '/'} {op[1]})"
+    return out
+
+
+def build_recipe(rec):
+    """-> (mici matrix object, dense array computed WITHOUT mici from the recipe)"""
+    from mici import matrices as mm
+
+    if "blocks" in rec:
+        objs, arrs = zip(*(build_recipe(b) for b in rec["blocks"]))
+        n = sum(a.shape[0] for a in arrs)
+        M = np.zeros((n, n))
+        i = 0
+        for a in arrs:
+            M[i:i + len(a), i:i + len(a)] = a
+            i += len(a)
+        return mm.PositiveDefiniteBlockDiagonalMatrix(list(objs)), M
+    obj, M = ic.metric_arg(rec["base"]), ic.metric_dense(rec["base"])
+    for op in rec["ops"]:
+        if op[0] == "touch":
+            for a in op[1]:
+                getattr(obj, a, None)
+        elif op[0] == "inv":
+            obj, M = obj.inv, np.linalg.inv(M)
+        elif op[0] == "scale":
+            obj, M = op[1] * obj, op[1] * M
+        elif op[0] == "div":
+            obj, M = obj / op[1], M / op[1]
+        elif op[0] == "T":
+            obj, M = obj.T, M.T
+        else:
+            raise ValueError(op)
+    return obj, M
+
+
+def derive_metric(sysw, rec):
+    """give the (not yet used) system a derived metric object; the wrapper is re-described by the dense array that the
+    recipe gives independently of mici"""
+    obj, M = build_recipe(rec)
+    sysw.system.metric = obj
+    sysw.M = M
+    sysw.metric_spec = {"kind": describe_recipe(rec)}
+    sysw.spec = dict(sysw.spec, metric=sysw.metric_spec)
+
+
+def derived_metric_oracles(ctx, rng, counts):
+    """exact-flow / energy / Jacobian-block oracles with derived metric objects (inverses, scalar multiples, transposes,
+    block diagonals of matrices whose lazily computed eigendecompositions / factors were touched first)"""
+    reps = ctx.n(160, 1600)
+    for kind in ic.TRACTABLE_KINDS:
+        for rep in range(reps if kind.startswith("gaussian") else reps // 4):
+            try:
+                sspec = ic.random_system_spec(rng, kind, metric_kind="dense_obj")
+                sysw = ic.build_system(sspec)
+                stspec = ic.random_state_spec(rng, sysw, dir_=1)
+                rec = random_recipe(rng, sysw.dim)
+                _, M = build_recipe(rec)
+            except common.MachineryError:
+                raise
+            except Exception as e:  # noqa: BLE001
+                ctx.violation(f"{kind} derived metric construction raises", f"{type(e).__name__}: {e}", {"check": "build", "system": sspec})
+                continue
+            ev = np.linalg.eigvalsh((M + M.T) / 2)
+            if not (ev[0] > 0.02 and ev[-1] / ev[0] < 400):
+                ctx.count("derived:skipped_ill_conditioned")
+                continue
+            t, s_ = _rand_time(rng), _rand_time(rng)
+            checks = ["h2_flow"] + (["dh2_flow_dmom"] if kind in ic.CONSTRAINED else [])
+            for chk in checks:
+                case = {"check": chk, "system": sspec, "state": stspec, "t": ic.enc(t), "s": ic.enc(s_), "populate": bool(rep % 2),
+                        "derived": rec}
+                if chk == "dh2_flow_dmom":
+                    case["delta"] = ic.enc(ic.dy(rng, (sysw.dim,), 16, -1.0, 1.0))
+                ctx.case({"check": chk, "kind": kind, "derived": describe_recipe(rec), "t": t, "dim": sysw.dim}, nontrivial=True)
+                ctx.count(f"derived:{chk}:{kind}")
+                try:
+                    fails = ic.with_timeout(lambda c=case: check_case(c, counts), 60)
+                except ic.Timeout:
+                    fails = [(f"{kind} {chk} does not return", f"{chk} did not return within 60 s")]
+                for sig, what in fails:
+                    ctx.violation(sig + " (derived metric)", what, case)
+
+
+REMETRIC_KINDS = ("scaled", "diag_obj", "dense_obj", "chol", "eig", "block")
+
+
+class _ConstNormal:
+    """generator for the adapters' final momentum resampling (the value is irrelevant here)"""
+
+    def standard_normal(self, size=None, **_):
+        return np.ones(size if size is not None else ())
+
+    def normal(self, loc=0.0, scale=1.0, size=None, **_):  # noqa: ARG002
+        return np.ones(size if size is not None else ())
+
+
+def replace_metric(sysw, rm):
+    """Scenario "metric replaced after first use" (what the metric adapters do between warm-up stages):
+    (1) use every metric-dependent method of the system once, (2) replace `system.metric` - by direct assignment
+    or through the real OnlineVariance/OnlineCovarianceMetricAdapter.finalize - (3) re-describe the wrapper by the
+    NEW metric, so that all oracles of check_case run on fresh states against the metric the system holds now."""
+    import mici
+
+    d = sysw.dim
+    system = sysw.system
+    w = ic.arr(rm["warm"])
+    for t in (0.75, -0.5):
+        st = sysw.state(w[:d], w[d:])
+        system.h2_flow(st, t)
+        st = sysw.state(w[:d], w[d:])
+        for name in ("h2", "dh2_dmom", "dh2_dpos", "h", "dh_dmom"):
+            getattr(system, name)(st)
+        if sysw.kind in ic.CONSTRAINED:
+            system.dh2_flow_dmom(sysw.state(w[:d], w[d:]), t)
+    how = rm["how"]
+    if how == "assign":
+        system.metric = ic.metric_arg(rm["metric"])
+        sysw.M = ic.metric_dense(rm["metric"])
+    else:
+        cls = mici.adapters.OnlineVarianceMetricAdapter if how == "var_adapter" else mici.adapters.OnlineCovarianceMetricAdapter
+
+        class T:
+            pass
+
+        T.system = system
+        ad = cls()
+        pts = ic.arr(rm["points"])
+        st = sysw.state(pts[0], w[d:])
+        astate = ad.initialize(st, T)
+        for x in pts:
+            ad.update(astate, sysw.state(x, w[d:]), {}, T)
+        ad.finalize(astate, st, T, _ConstNormal())
+        sysw.M = np.array(system.metric.array, dtype=float)
+        if not np.all(np.isfinite(sysw.M)):
+            raise common.MachineryError("C07 adapter produced a non-finite metric")
+    sysw.metric_spec = {"kind": f"{sysw.spec.get('metric', {}).get('kind', '-')}->{how}:{rm.get('metric', {}).get('kind', 'adapted')}"}
+    sysw.spec = dict(sysw.spec, metric=sysw.metric_spec)
+
+
+def remetric_oracles(ctx, rng, counts):
+    """the scenario of `replace_metric` for every tractable-flow system class"""
+    reps = ctx.n(10, 100)
+    for kind in ic.TRACTABLE_KINDS:
+        hows = ["assign", "assign", "assign"] + (["var_adapter", "cov_adapter"] if kind in ic.UNCONSTRAINED_TRACTABLE else [])
+        for rep in range(reps):
+            how = hows[rep % len(hows)]
+            try:
+                sspec = ic.random_system_spec(rng, kind, metric_kind=str(rng.choice([k for k in ic.METRIC_KINDS])))
+                sysw = ic.build_system(sspec)
+                stspec = ic.random_state_spec(rng, sysw, dir_=1)
+            except common.MachineryError:
+                raise
+            except Exception as e:  # noqa: BLE001
+                ctx.violation(f"{kind} system construction raises", f"building a {kind} system raised {type(e).__name__}: {e}",
+                              {"check": "build", "system": sspec})
+                continue
+            d = sysw.dim
+            rm = {"how": how, "warm": ic.enc(ic.dy(rng, (2 * d,), 8, -1.0, 1.0))}
+            if how == "assign":
+                rm["metric"] = ic.random_metric_spec(rng, d, kinds=REMETRIC_KINDS)
+            else:
+                rm["points"] = ic.enc(ic.dy(rng, (d + 4, d), 8, -2.0, 2.0) * ic.dy(rng, (d,), 4, 0.5, 3.0))
+            t, s = _rand_time(rng), _rand_time(rng)
+            checks = ["h2_flow"] + (["dh2_flow_dmom"] if kind in ic.CONSTRAINED else [])
+            for chk in checks:
+                case = {"check": chk, "system": sspec, "state": stspec, "t": ic.enc(t), "s": ic.enc(s), "populate": False,
+                        "remetric": rm}
+                if chk == "dh2_flow_dmom":
+                    case["delta"] = ic.enc(ic.dy(rng, (d,), 16, -1.0, 1.0))
+                ctx.case({"check": chk, "kind": kind, "remetric": how, "t": t, "dim": d, "rep": rep}, nontrivial=True)
+                ctx.count(f"remetric:{chk}:{kind}:{how}")
+                try:
+                    fails = ic.with_timeout(lambda c=case: check_case(c, counts), 60)
+                except ic.Timeout:
+                    fails = [(f"{kind} {chk} does not return", f"{chk} did not return within 60 s")]
+                for sig, what in fails:
+                    ctx.violation(sig + " after metric replacement", what + f" [metric replaced after first use: {how}]", case)
+
+
 def check_case(case, counts=None):
     """Run one case on the real code; returns a list of (signature, what) failures."""
     cnt = counts if counts is not None else {}
@@ -102,6 +324,22 @@ def check_case(case, counts=None):
 
     sysw = ic.build_system(case["system"])
     d = sysw.dim
+    if "derived" in case:
+        try:
+            derive_metric(sysw, case["derived"])
+        except common.MachineryError:
+            raise
+        except Exception as e:  # noqa: BLE001
+            return [(f"{_name(sysw)} derived metric raises",
+                     f"building the derived metric {describe_recipe(case['derived'])} raised {type(e).__name__}: {e}")]
+    if "remetric" in case:
+        try:
+            replace_metric(sysw, case["remetric"])
+        except common.MachineryError:
+            raise
+        except Exception as e:  # noqa: BLE001
+            return [(f"{_name(sysw)} metric replacement raises",
+                     f"first use / replacing the metric ({case['remetric'].get('how')}) raised {type(e).__name__}: {e}")]
     z = np.concatenate([ic.arr(case["state"]["pos"]), ic.arr(case["state"]["mom"])])
     t = ic.fl(case["t"])
     s = ic.fl(case.get("s", 0.0))
@@ -223,6 +461,11 @@ def direct_oracles(ctx):
     rng = common.rng_for(ctx, 1)
     ic.selfcheck(common.rng_for(ctx, 99), 3)
     reps = ctx.n(30, 300)
+    # a broken source-level obligation (src_*_flow_eq_model over the regenerated method table) escalates the search
+    from . import c05 as zoo
+
+    if zoo.src_escalation(ctx)[0] and ctx.quick:
+        reps *= 3
     counts: dict = {}
     n_ode = 0
     ode_budget = ctx.n(200, 2000)
@@ -262,6 +505,8 @@ def direct_oracles(ctx):
                         fails = [(f"{kind} {chk} does not return", f"{chk} did not return within 60 s")]
                     for sig, what in fails:
                         ctx.violation(sig, what, case)
+    remetric_oracles(ctx, common.rng_for(ctx, 5), counts)
+    derived_metric_oracles(ctx, common.rng_for(ctx, 6), counts)
     for k, v in ic.STATS.items():
         ctx.count("lib:" + k, v)
     for k, v in counts.items():
@@ -296,7 +541,7 @@ def replay(ctx, obj):  # noqa: ARG001
         except Exception:  # noqa: BLE001
             return True
         return False
-    case = {k: obj[k] for k in ("check", "system", "state", "t", "s", "populate", "ode", "delta") if k in obj}
+    case = {k: obj[k] for k in ("check", "system", "state", "t", "s", "populate", "ode", "delta", "remetric", "derived") if k in obj}
     try:
         return bool(ic.with_timeout(lambda: check_case(case), 120))
     except ic.Timeout:
@@ -316,7 +561,14 @@ LEVEL_TEXT = (
     'systems with implicit identity, implicit scaled identity, diagonal and dense metrics, times up to |t| = 40; the model '
     "receives the implementation's own eigenvectors, frequencies and cos/sin values, which are checked against their "
     'defining equations. Direct oracles on the real code: group law, inverse, h2 conservation, closed form via expm, ODE '
-    'reference, linearity and finite differences of the flow in the momentum vs dh2_flow_dmom; any exception is a violation.'
+    'reference, linearity and finite differences of the flow in the momentum vs dh2_flow_dmom; any exception is a violation; '
+    'the same oracles after the metric was replaced following a first use (direct assignment, OnlineVariance/'
+    'OnlineCovarianceMetricAdapter.finalize). Source level (Props/C07S): the bodies of h1_flow / h2_flow / dh2_flow_dmom '
+    'in systems.py are re-translated on every run (tools/extractors/system_methods.py -> Generated/SystemMethods.lean) and '
+    'src_<Class>_h1_flow/h2_flow/dh2_flow_dmom_eq_model prove that executing the generated in-place bodies (calls resolved '
+    'through the generated MRO) gives kick with the class\' own dh1_dpos, drift with metric.inv, harmonic with omega = 1.0 / '
+    'eigval ** 0.5 and (cos, sin)(omega dt) exactly as written, and driftDmom / harmonicDmom; src_*_flow_group, '
+    'src_GaussianEuclideanMetricSystem_h2_conserved restate group law, reversal and h2 conservation for the source text.'
 )
 LEVEL_NOTE = (
     'Trusted: Lean kernel, axioms {propext, Classical.choice, Quot.sound}; algebraic facts about cos/sin enter as hypotheses '
@@ -325,4 +577,4 @@ LEVEL_NOTE = (
     'of numpy.linalg.eigh (defining equations checked to 1e-11). dt = 0 is excluded for dh2_flow_dmom (zero scalar multiples '
     'of matrices are rejected by mici.matrices; only reachable with step_size = 0).'
 )
-TECHNIQUE = 'Lean 4 theorems (field/module algebra, orthogonal change of basis) + exact-rational model/implementation correspondence + group-law / conservation / finite-difference oracles'
+TECHNIQUE = 'Lean 4 theorems (field/module algebra, orthogonal change of basis) + exact-rational model/implementation correspondence + group-law / conservation / finite-difference oracles + source-to-term translation of the flow method bodies with machine-checked equality to the model (src_*_eq_model)'
